@@ -55,6 +55,12 @@ func genQuote(n int) {
 		f := pick(fields)
 		// quoting clause: any w without a double quote (and, for the SQL clauses, without NUL)
 		emitQ(f+`:"`+w+`"`, "", "rel=C08q;f="+hx(f)+";w="+hx(w))
+		// a near-duplicate follow-up: the same query with only the blanks INSIDE the quoted value changed (a later call must not
+		// be answered from an earlier, almost equal one)
+		if strings.Contains(w, " ") && rng.Intn(3) == 0 {
+			w2 := strings.ReplaceAll(w, " ", pick([]string{"  ", "\t", " \t ", "   "}))
+			emitQ(f+`:"`+w2+`"`, "", "rel=C08q;f="+hx(f)+";w="+hx(w2))
+		}
 		// escaping clause: non-empty w
 		if w != "" {
 			emitQ(f+":"+esc(w), "", "rel=C08e;f="+hx(f)+";w="+hx(w))
@@ -73,6 +79,21 @@ func genQuote(n int) {
 				emitQ(qw+" AND "+f+":<="+qw, "df", "rel=C08c;w="+hx(w))
 			default:
 				emitQ("NOT "+f+":{"+qw+" TO *}", "", "rel=C08c;w="+hx(w))
+			}
+			// next to a bound of another kind, and directly under an operator that cannot be rendered (tree only)
+			switch rng.Intn(8) {
+			case 0:
+				emitQ(f+":["+qw+" TO 5]", "", "rel=C08c;w="+hx(w))
+			case 1:
+				emitQ(f+":{-2.5 TO "+qw+"}", "", "rel=C08c;w="+hx(w))
+			case 2:
+				emitQ(qw+"~2", pick([]string{"", "d"}), "rel=C08t;w="+hx(w))
+			case 3:
+				emitQ(qw+"^2 OR x", pick([]string{"", "d"}), "rel=C08t;w="+hx(w))
+			case 4:
+				emitQ(pick([]string{"NOT ", "+", "-"})+qw, pick([]string{"", "d"}), "rel=C08t;w="+hx(w))
+			case 5:
+				emitQ(f+":x "+qw, "", "rel=C08t;w="+hx(w))
 			}
 		}
 	}
@@ -344,6 +365,9 @@ func genCustom(n int) {
 			ov = append(ov, fmt.Sprint(1+rng.Intn(19)))
 		}
 		spec := "rm=" + strings.Join(rm, ",") + ";ov=" + strings.Join(ov, ",")
+		if i%23 == 0 {
+			spec = pick([]string{"nil=1", "empty=1"}) // a driver with no table / an empty table
+		}
 		emitD(q, spec, "src=custom")
 		// trees that only a JSON document (or a struct literal) can build
 		if i%4 == 0 {
@@ -620,7 +644,13 @@ func genSem(n int) {
 		if rng.Intn(4) == 0 {
 			t = addPars(t, 0.2)
 		}
-		emitQ(join(t.words(func() bool { return rng.Intn(4) == 0 }), rng.Intn(2)), "", "src=sem")
+		q := join(t.words(func() bool { return rng.Intn(4) == 0 }), rng.Intn(2))
+		emitQ(q, "", "src=sem")
+		if rng.Intn(8) == 0 {
+			if v := nearDup(q); v != "" {
+				emitQ(v, "", "src=sem")
+			}
+		}
 	}
 }
 
@@ -629,7 +659,7 @@ func genSem(n int) {
 var nearForms = [][]string{
 	{"a", ":", "b"}, {"a", "=", "5"}, {"a", ":", ">", "5"}, {"a", ":", "<", "=", "5"}, {"a", ":", "[", "1", "TO", "5", "]"}, {"a", ":", "{", "b", "TO", "*", "}"},
 	{"a", ":", "(", "x", "OR", "y", ")"}, {"a", "AND", "b"}, {"a", "OR", "b", "AND", "c"}, {"NOT", "a"}, {"+", "a", "-", "b"}, {"a", "~", "2"}, {"a", "^", "2.5"},
-	{"(", "a", ")"}, {"a", ":", "b", "c", ":", "d"}, {"b", ":", "c", ":", "d"}, {"x", ":", "[", "1", "~", "TO", "2", "]"}, {"(", "b", "OR", "c", ")", ":", "d"}, {"a", ":", "w*"}, {"a", ":", `"q r"`}, {"a", ":", "/r/"}, {"a", "~"}, {"(", "a", "OR", "b", ")", "^", "2"},
+	{"(", "a", ")"}, {"a", "OR", "b"}, {"x", "OR", "y", "OR", "z"}, {`"q"`, "OR", "5"}, {"a", ":", "b", "c", ":", "d"}, {"b", ":", "c", ":", "d"}, {"x", ":", "[", "1", "~", "TO", "2", "]"}, {"(", "b", "OR", "c", ")", ":", "d"}, {"a", ":", "w*"}, {"a", ":", `"q r"`}, {"a", ":", "/r/"}, {"a", "~"}, {"(", "a", "OR", "b", ")", "^", "2"},
 }
 
 func genNearMiss() {
@@ -674,6 +704,11 @@ func genNearMiss() {
 	}
 	for _, f := range nearForms {
 		emit(f)
+		q0 := strings.Join(f, " ")
+		for _, wrap := range []string{"f : ( %s )", "NOT ( %s )", "f : > ( %s )", "f : < = ( %s )", "( %s ) OR z", "f : [ 1 TO ( %s ) ]", "- ( %s ) ^ 2"} {
+			emitQ(fmt.Sprintf(wrap, q0), "", "src=nearmiss-embedded")
+			emitQ(fmt.Sprintf(wrap, q0), "d", "src=nearmiss-embedded")
+		}
 		for i := 0; i <= len(f); i++ {
 			for _, s := range enumAlphabet {
 				ins := append(append(append([]string{}, f[:i]...), s), f[i:]...)
